@@ -1,6 +1,6 @@
 (* Wire glue for C04 (ops 4xx): universal value -> rank/merger spec and model functions.
    Evaluated both by vm_compute (cases.v) and by the extracted OCaml driver. *)
-From Fzf Require Import Prelude Val RankSpec RankModel MergerModel.
+From Fzf Require Import Prelude Val RankSpec RankModel MergerModel CriteriaSpec CriteriaModel.
 Open Scope Z_scope.
 
 (* unicode.IsSpace above 127: the harness sends the list of such runes occurring in the case *)
@@ -102,6 +102,36 @@ Definition d_order (a : val) : val :=
   vints (map ri_index (if as_bool (arg a 2) then (if sorted then ranked_fast tac l else input_order tac l)
                        else result_order sorted tac l)).
 
+(* options on the wire: [kind, payload]; kind 0 --scheme (string), 1 --tiebreak (string), 2 sort on/off, 3 tac on/off *)
+Definition as_copt (v : val) : copt :=
+  let k := as_int (arg v 0) in
+  if k =? 0 then OScheme (as_str (arg v 1))
+  else if k =? 1 then OTiebreak (as_str (arg v 1))
+  else if k =? 2 then OSort (as_bool (arg v 1))
+  else OTac (as_bool (arg v 1)).
+Definition scheme_code (s : scheme) : Z := match s with SDefault => 0 | SPath => 1 | SHistory => 2 end.
+
+(* 412 spec: the configured scheme / criteria / sort / tac of a command line: [walker, options] ->
+   [1, scheme (0 default 1 path 2 history), criteria, sort, tac], or [0] when the command line is rejected *)
+Definition d_configured (a : val) : val :=
+  match configured (as_bool (arg a 0)) (map as_copt (as_list (arg a 1))) with
+  | Some c => VL [VI 1; VI (scheme_code (cf_scheme c)); vints (map crit_code (cf_criteria c));
+                  vbool (cf_sort c); vbool (cf_tac c)]
+  | None => VL [VI 0]
+  end.
+
+(* 413 model of ParseOptions: [walker, options] -> [scheme name, criteria, Sort, tac] (verr on an error) *)
+Definition d_parse_options (a : val) : val :=
+  vres (fun st => VL [vstr (o_scheme st); vints (o_criteria st); VI (o_sort st); vbool (o_tac st)])
+       (parse_options (as_bool (arg a 0)) (map as_copt (as_list (arg a 1)))).
+
+(* 414 spec: the criteria of one --tiebreak value: string -> [1, criteria] or [0] *)
+Definition d_tiebreak (a : val) : val :=
+  match tiebreak_criteria (as_str a) with
+  | Some cs => VL [VI 1; vints (map crit_code cs)]
+  | None => VL [VI 0]
+  end.
+
 Definition dispatch_rank (op : Z) (a : val) : option val :=
   if op =? 401 then Some (d_key a)
   else if op =? 402 then Some (d_build a)
@@ -114,4 +144,7 @@ Definition dispatch_rank (op : Z) (a : val) : option val :=
   else if op =? 409 then Some (d_sort a)
   else if op =? 410 then Some (d_scan a)
   else if op =? 411 then Some (d_order a)
+  else if op =? 412 then Some (d_configured a)
+  else if op =? 413 then Some (d_parse_options a)
+  else if op =? 414 then Some (d_tiebreak a)
   else None.
